@@ -122,6 +122,11 @@ def render_tabs(pil, rec):
 def gen_pil(rng, max_prot=8, max_pep=14):
     nprot = rng.randint(2, max_prot)
     base = [f"P{i}" for i in range(nprot)]
+    if rng.random() < 0.3:
+        # identifier shapes: names differing in case only, one a prefix of another, targets whose name contains REV_ / Rev_ with a
+        # single underscore, isoform suffixes, UniProt triples, a contaminant
+        shapes = ["ACTB", "Actb", "actb", "ACTB1", "sp|P1|A_HUMAN", "sp|P11|AA_HUMAN", "sp|P04618|REV_HV1H2", "Rev_erb", "P1-2", "P1", "CON__K1", "Q9"]
+        base = rng.sample(shapes, nprot) if nprot <= len(shapes) else base
     prots = base + [("REV__" + b) for b in base if rng.random() < 0.7]
     pil = []
     style = rng.random()
